@@ -297,6 +297,46 @@ def suspension_points(paths, limit_bytes=400_000_000):
     return seen
 
 
+DEC_RE = re.compile(rb'"ev":"dec".*?"obj":(\d+).*?"st":"([A-Za-z0-9]+)","status":"([A-Za-z0-9]+)"')
+DNEW_RE = re.compile(rb'"ev":"dnew".*?"obj":(\d+)')
+
+
+def decoder_calls(paths, limit_bytes=400_000_000):
+    """(state the call resumed from, state it ended in) pairs of the low-level decoder objects, from the
+    verif_state hook fields of consecutive dec events of the same object."""
+    seen = {}
+    budget = limit_bytes
+    for p in paths:
+        last = {}
+        try:
+            with open(p, "rb") as f:
+                for line in f:
+                    budget -= len(line)
+                    if budget < 0:
+                        return seen
+                    if b'"ev":"case"' in line[:60]:
+                        last = {}
+                        continue
+                    if b'"ev":"dnew"' in line[:80]:
+                        m = DNEW_RE.search(line)
+                        if m:
+                            last[m.group(1)] = "Start"
+                        continue
+                    if b'"ev":"dec"' not in line:
+                        continue
+                    m = DEC_RE.search(line)
+                    if m:
+                        o, st, status = m.group(1), m.group(2).decode(), m.group(3).decode()
+                        if status != "BadParam" and o in last:
+                            k = last[o] + ">" + st
+                            seen[k] = seen.get(k, 0) + 1
+                        if status != "BadParam":
+                            last[o] = "ReadBlockHeader" if status == "BlockBoundary" else st
+        except Exception:
+            pass
+    return seen
+
+
 def extract_case(paths, case_id, dest):
     """Copy the events of one case out of sharded traces."""
     for p in paths:
@@ -351,6 +391,18 @@ class Check:
     def tool_error(self, msg):
         raise ToolError(msg)
 
+    def decoder_state_model(self):
+        """Model-check spec/InflateStates.tla; its reachable (state, status) and (from, to) pairs are
+        the denominator of the decoder coverage reported in the evidence."""
+        r = self.model_check("MC_InflateStates", "MC_InflateStates.cfg", workers=1)
+        out = open(os.path.join(self.work, "mc-MC_InflateStates-MC_InflateStates.cfg", "out.txt")).read()
+        pairs = re.findall(r'<<\s*"PAIR",\s*"(\w+)",\s*"(\w+)"\s*>>', out)
+        calls = re.findall(r'<<\s*"CALL",\s*"(\w+)",\s*"(\w+)"\s*>>', out)
+        if not pairs or not calls:
+            raise ToolError("InflateStates: no reachable pairs printed")
+        self.state_model = {"pairs": [a + "/" + b for a, b in pairs], "calls": [a + ">" + b for a, b in calls]}
+        return r
+
     def model_check(self, module, cfg=None, workers=4, timeout=3600, expect_ok=True, extra=None, xmx="8g"):
         r = tlc_mc(module, cfg, workers, timeout, extra=extra, workbase=self.work, xmx=xmx)
         self.mc.append(r)
@@ -368,6 +420,24 @@ class Check:
         out = os.path.join(self.work, "gen-%s.ndjson" % os.path.basename(cfg))
         if os.path.exists(out):
             os.remove(out)
+        # generation depends only on the specification files, the config, the seed and the volume:
+        # reuse an identical earlier generation of this checkout (several checks draw the same streams)
+        h = hashlib.sha1()
+        for fn in sorted(os.listdir(SPEC)) + [os.path.join("mc", module + ".tla"), os.path.join("mc", cfg)]:
+            fp = os.path.join(SPEC, fn)
+            if os.path.isfile(fp):
+                h.update(open(fp, "rb").read())
+        key = "%s-%s-%d-%d-%s" % (os.path.basename(cfg), seed or self.seed, num, depth, h.hexdigest()[:16])
+        cdir = os.path.join(WORK, "gen-cache")
+        os.makedirs(cdir, exist_ok=True)
+        cached = os.path.join(cdir, key + ".ndjson")
+        if os.path.exists(cached) and os.path.getsize(cached) > 0:
+            shutil.copy(cached, out)
+            n = sum(1 for _ in open(out))
+            log("TLC -simulate %s/%s: %d behaviours reused from an identical generation (%s)" % (module, cfg, n, key))
+            self.mc.append({"module": module, "cfg": cfg + " (-simulate num=%d depth=%d, reused)" % (num, depth), "states": 0,
+                            "generated": 0, "wall_s": 0.0, "violations": [], "coverage": {}, "cmd": "reused " + key, "behaviours": n})
+            return out
         md = os.path.join(self.work, "gen-" + os.path.basename(cfg))
         shutil.rmtree(md, ignore_errors=True)
         os.makedirs(md, exist_ok=True)
@@ -386,6 +456,7 @@ class Check:
                         "coverage": {}, "cmd": " ".join(cmd[5:]), "behaviours": n})
         if n == 0:
             raise ToolError("generator produced nothing:\n" + o[-2000:])
+        shutil.copy(out, cached)
         return out
 
     def scenario(self, name, profile="release", features=None, shards=None, module="Trace", maxpar=8, extra=None):
@@ -531,6 +602,24 @@ class Check:
         if sp:
             cov["decoder_suspension_points_reached"] = dict(sorted(sp.items()))
             cov["decoder_suspension_points_distinct"] = len(sp)
+            model = getattr(self, "state_model", None)
+            if model:
+                # coverage against the reachable pairs of spec/InflateStates.tla; anything the real
+                # decoder shows that the model does not have is model drift (a note, never a verdict)
+                mp = set(model["pairs"])
+                got = {k for k in sp if not k.endswith("/BadParam")}
+                cov["decoder_state_model"] = {
+                    "reachable_pairs": len(mp), "reached": len(got & mp),
+                    "missed": sorted(mp - got), "not_in_model": sorted(got - mp)}
+                calls = decoder_calls(paths)
+                mc = set(model["calls"])
+                cov["decoder_state_model"]["call_pairs_reachable"] = len(mc)
+                cov["decoder_state_model"]["call_pairs_reached"] = len(set(calls) & mc)
+                cov["decoder_state_model"]["call_pairs_not_in_model"] = sorted(set(calls) - mc)[:40]
+                for k in sorted(got - mp):
+                    self.notes.append("model drift: decoder ended a call in %s, which InflateStates does not reach" % k)
+                for k in sorted(set(calls) - mc)[:20]:
+                    self.notes.append("model drift: decoder call went %s, a step InflateStates does not have" % k)
         if explanation:
             cov["explanation"] = explanation
         cov.update(self.extra_cov)
